@@ -54,11 +54,20 @@ pub struct Gate {
     op_start: Mutex<Option<Instant>>,
     pub held: AtomicU64,
     pub forced: AtomicU64,
+    /// the chunk write with this number (in the order the store sees them) fails, once
+    fail_at: Option<u64>,
+    sets: AtomicU64,
+    pub failed: AtomicU64,
 }
+
+pub const INJECTED_WRITE_FAILURE: &str = "INJECTED-WRITE-FAILURE";
 
 impl Gate {
     fn new(hold: u64, sel: u8) -> Self {
-        Gate { hold, sel, epoch: AtomicU64::new(0), issued: AtomicU64::new(0), op_start: Mutex::new(None), held: AtomicU64::new(0), forced: AtomicU64::new(0) }
+        Gate { hold, sel, epoch: AtomicU64::new(0), issued: AtomicU64::new(0), op_start: Mutex::new(None), held: AtomicU64::new(0), forced: AtomicU64::new(0), fail_at: None, sets: AtomicU64::new(0), failed: AtomicU64::new(0) }
+    }
+    fn failing(at: u64) -> Self {
+        Gate { fail_at: Some(at), ..Gate::new(0, 0) }
     }
     fn begin_op(&self) {
         *self.op_start.lock().unwrap() = Some(Instant::now());
@@ -122,6 +131,13 @@ impl AsyncReadableStorageTraits for GateStore {
 #[async_trait::async_trait]
 impl AsyncWritableStorageTraits for GateStore {
     async fn set(&self, key: &StoreKey, value: Bytes) -> Result<(), StorageError> {
+        if key.as_str().contains("/c/") {
+            let i = self.gate.sets.fetch_add(1, Ordering::SeqCst);
+            if self.gate.fail_at == Some(i) {
+                self.gate.failed.fetch_add(1, Ordering::SeqCst);
+                return Err(StorageError::Other(format!("{INJECTED_WRITE_FAILURE}: chunk write {i} ({})", key.as_str())));
+            }
+        }
         self.gate.wait(key).await;
         self.inner.set(key, value).await
     }
@@ -168,6 +184,8 @@ pub enum Writer {
     SyncFs,
     /// async writer, chunk writes held for `hold` operations (0 = never, 255 = until forced), selector
     Async { hold: u8, sel: u8 },
+    /// async writer over a store whose `at`-th chunk write fails once (a transient I/O error)
+    AsyncFail { at: u16 },
 }
 
 #[derive(Clone, Debug)]
@@ -194,6 +212,7 @@ impl Scenario {
             Writer::SyncMem => "SyncMem".to_string(),
             Writer::SyncFs => "SyncFs".to_string(),
             Writer::Async { hold, sel } => format!("Async-hold{hold}-sel{sel}"),
+            Writer::AsyncFail { .. } => "Async-write-failure".to_string(),
         };
         format!("{w}/{:?}", self.preset)
     }
@@ -275,6 +294,9 @@ fn run_scenario<S: Settings>(sc: &Scenario, settings: &S, p: &mut Partial) {
     let res = std::panic::catch_unwind(std::panic::AssertUnwindSafe(|| drive(sc, settings, &math, &schema, &rows, p)));
     match res {
         Err(pn) => p.violation(format!("C15/writer-panicked/{}/{}", sc.group(), short(&panic_msg(&pn))), format!("{name}: {}", panic_msg(&pn)), replay),
+        // an injected write failure that comes back as an error of record / flush / finalize has
+        // surfaced: nothing was promised for that run
+        Ok(Err(e)) if matches!(sc.writer, Writer::AsyncFail { .. }) && e.contains(INJECTED_WRITE_FAILURE) => p.count("injected_write_failures_reported_by_the_writer", 1),
         Ok(Err(e)) => p.violation(format!("C15/writer-returned-error/{}/{}", sc.group(), short(&e)), format!("{name}: {e}"), replay),
         Ok(Ok(Some((oracle, detail)))) => p.violation(format!("C15/{oracle}/{}", sc.group()), format!("{name}: {detail}"), replay),
         Ok(Ok(None)) => {}
@@ -414,6 +436,27 @@ fn drive<S: Settings>(sc: &Scenario, settings: &S, math: &CpuMath<RichDens>, sch
             let g2 = gate.clone();
             steps!(trace, snapshot, || g1.begin_op(), || g2.end_op());
             p.count("async_chunk_writes_held", gate.held.load(Ordering::SeqCst));
+        }
+        Writer::AsyncFail { at } => {
+            let rt = tokio::runtime::Builder::new_multi_thread().worker_threads(1).enable_all().build().map_err(|e| e.to_string())?;
+            let os = Arc::new(object_store::memory::InMemory::new());
+            let gate = Arc::new(Gate::failing(at as u64));
+            let store = Arc::new(GateStore { inner: zarrs_object_store::AsyncObjectStore::new(os.clone()), gate: gate.clone() });
+            let trace = ZarrAsyncConfig::new(rt.handle().clone(), store).with_chunk_size(sc.chunk).new_trace(settings, math).map_err(e2s)?;
+            let snapshot = || -> Result<ReadBack, String> {
+                let mem = Arc::new(zarrs::storage::store::MemoryStore::new());
+                rt.block_on(crate::c14::futures_lite_shim::copy_object_store(os.clone(), mem.clone()))?;
+                let reader: Arc<dyn zarrs::storage::ReadableListableStorageTraits> = mem;
+                read_zarr_sync(reader, &schema.stats, &schema.draws, sc.chains)
+            };
+            // (everything that returns Ok although the write failed is judged by the usual
+            // completeness oracles; an Err leaves this function through `?`)
+            steps!(trace, snapshot, || {}, || {});
+            if gate.failed.load(Ordering::SeqCst) == 0 {
+                p.count("write_failure_positions_beyond_the_last_chunk_write", 1);
+            } else {
+                p.count("injected_write_failures_not_reported_yet_data_complete", 1);
+            }
             p.count("async_held_writes_released_because_the_writer_waited", gate.forced.load(Ordering::SeqCst));
         }
     }
@@ -709,6 +752,17 @@ pub fn run(tier: Tier, _replay: Option<String>) -> i32 {
                             }
                         }
                     }
+                }
+            }
+        }
+    }
+    // a transient failure of one chunk write, at every position of the write sequence: either
+    // some call of the writer reports it, or the trace is complete
+    for (a, b) in [(0usize, 3usize), (1, 2)] {
+        for chunk in [1u64, 2] {
+            for flush_mask in [0u32, 0b100, 0b111] {
+                for at in 0..tier.pick(160u16, 400) {
+                    scs.push(Scenario { preset: Preset::DiagNuts, writer: Writer::AsyncFail { at }, a, b, chains: 1, chunk, flush_mask, flush_first_chain_only: false, div_mask: 0 });
                 }
             }
         }
